@@ -3,5 +3,5 @@ EXTENDS Recursion, Json
 MCCircuits == {"canonical", "sameshape_unconstrained", "sameshape_rangeonly", "fragments_unconnected", "padded_domain", "other_config", "one_pi", "twenty_pis"}
 MCPiCount == [c \in MCCircuits |-> CASE c = "one_pi" -> 1 [] c = "twenty_pis" -> 20 [] OTHER -> 21]
 Emit == stage = "end" => PrintT(<<"REPLAY", ToJson([built_for |-> builtFor, ctor |-> ctorResult, proof_by |-> proof.by,
-                                                     valid |-> IF proof.valid THEN 1 ELSE 0, accepted |-> IF accepted THEN 1 ELSE 0])>>)
+                                                     valid |-> IF proof.valid THEN 1 ELSE 0, n |-> n, slot |-> slot, accepted |-> IF accepted THEN 1 ELSE 0])>>)
 ====
